@@ -15,7 +15,7 @@ p=f'/verif/seeded/{sys.argv[1]}/meta.json'; m=json.load(open(p)); m['detected_by
 PY
     continue
   fi
-  if ! git -C /repo apply --check seeded/$s/patch.diff 2>/dev/null; then
+  if ! git -C /repo apply --check /verif/seeded/$s/patch.diff 2>/dev/null; then
     echo "$s patch does not apply to the repaired tree"
     python3 - "$s" "patch-does-not-apply" "the seeded patch no longer applies after the fix commits (see DESIGN.md)" <<'PY'
 import json,sys
